@@ -215,6 +215,66 @@ def histories(mods, rep, name, exprs, viol, rnd, nsteps=(4, 2)):
     return n
 
 
+NON_ASCII = [
+    '(declare-const s String)\n(assert (= s "caf\u00e9 \u00fcber"))\n'
+    '(assert (str.contains s "\u00e9"))\n(check-sat)\n',
+    '(declare-const |gr\u00f6\u00dfe x| Int)\n'
+    '(assert (> |gr\u00f6\u00dfe x| 0))\n(check-sat)\n',
+    '(declare-const t String)\n'
+    '(assert (= t "\u4e2d\u6587 \U0001f600 text"))\n(check-sat)\n',
+]
+
+
+def worker_roundtrip(mods, rep, viol):
+    """Proposals are applied in worker processes: input and proposal arrive
+    pickled, the result goes back pickled.  On inputs with characters outside
+    ASCII every proposal, applied that way, must give what applying it
+    directly gives, and what a reader parses from the rendered result."""
+    import pickle
+    nodeio = mods['nodeio']
+    n = 0
+    for text in NON_ASCII:
+        exprs = list(nodeio.parse_smtlib(text))
+        muts = P.all_mutators(mods)
+        for p in P.enumerate_proposals(mods, exprs, muts):
+            if p['error'] or not isinstance(
+                    p['simp'], mods['mutator_utils'].Simplification):
+                continue
+            direct, err = P.apply(mods, exprs, p['simp'])
+            if err or direct is None:
+                continue
+            n += 1
+            rep.count()
+            where = f'{p["mut"]}:non-ascii:node={p["idx"]}'
+            ctx = {'seed': 'non-ascii', 'input': text, 'mutator': p['mut'],
+                   'node': str(p['node'])[:200]}
+            try:
+                wex = pickle.loads(pickle.dumps(exprs))
+                wsimp = pickle.loads(pickle.dumps(p['simp']))
+                wres, werr = P.apply(mods, wex, wsimp)
+                if werr:
+                    raise RuntimeError(werr)
+                back = pickle.loads(pickle.dumps(wres))
+                got = P.toks_of(back)
+                rendered = nodeio.write_smtlib_to_str(back)
+                reread = P.toks_of(list(nodeio.parse_smtlib(rendered)))
+            except Exception as e:  # noqa
+                viol.append(('worker-application-fails:' + where,
+                             f'the proposal of {p["mut"]} at '
+                             f'{str(p["node"])[:80]!r} cannot be applied the '
+                             f'way a worker does (pickled input and proposal, '
+                             f'pickled result): {e!r}', ctx))
+                continue
+            if got != P.toks_of(direct) or reread != got:
+                viol.append(('worker-application-differs:' + where,
+                             f'the proposal of {p["mut"]} at '
+                             f'{str(p["node"])[:80]!r} applied the way a '
+                             f'worker does gives {" ".join(got)!r} (re-read: '
+                             f'{" ".join(reread)!r}), directly '
+                             f'{" ".join(P.toks_of(direct))!r}', ctx))
+    return n
+
+
 def main():
     a = common.std_args()
     ddsmt_env.load()
@@ -263,6 +323,9 @@ def main():
                 continue
             total += record(mods, rep, f'{name}+{k}', dex, cases, viol, None,
                             lim['max_cases'])
+    if not a.replay:
+        rep.cov['proposals_applied_like_a_worker'] = worker_roundtrip(
+            mods, rep, viol)
     for sig, msg, ctx in viol:
         if a.replay and ctx['mutator'] != rp.get('mutator'):
             continue
